@@ -62,3 +62,15 @@ theorem dftInverseNp_congr (plus : Bool) (w winv : K) (n : Nat) (f g : Nat → K
   cases plus <;> simp [dftInverseNp, npIfft, dftSum_congr _ n f g h]
 
 end OdlModel.Fourier
+
+namespace OdlModel.Fourier
+
+theorem alongAxis_one {K : Type} [Inhabited K] (n m : Nat) (F : (Nat → K) → Nat → K)
+    (x : Array K) (k : Nat) (hk : k < m) :
+    (alongAxis 1 n 1 m F x).getD k default = F (fun j => x.getD j default) k := by
+  unfold alongAxis
+  have hk' : k < 1 * m * 1 := by omega
+  rw [Array.getD_eq_getD_getElem?, Array.getElem?_ofFn]
+  simp [hk, Nat.mod_eq_of_lt hk, Nat.div_eq_of_lt hk, Nat.mod_one]
+
+end OdlModel.Fourier
